@@ -74,7 +74,7 @@ CHECKS = {
             "The race detector sees only the executions explored (sampling). Race builds are about 8x slower: fewer cases than the other checks.",
             SIM + "K concurrent pipelines under one scheduler, Go race detector with a baton invisible to it, differential oracle against isolated runs"),
     "C19": ("exploration",
-            "The real CLI (main, argument parsing included) is built from the working tree with the hooks on and run as a child process on tape-generated trees (1-12 files, empty files, sub-directories) with levels 0-9 or explicit -t/-e, -b, -j, -x/-x64, --rm, -f, dir/file/stdin/stdout/output-dir targets (stdin also to named files that are absent, exist and are forced, or exist and must be refused). Families: fault-free round trip (scheduler on or off, short reads on the input; a third of the scheduled runs with a race-built tool whose reports are violations); safety (existing output without force, output equal to input directly and through a symlink); kill points: the run is first executed fault-free under the in-process seeded scheduler to count its events, then re-executed with the same seed and a self-SIGKILL at event k for every k (runs of <= 120 events) or for k around the application-level points (before/after close and remove, output close) plus random ones - after each kill, every source must still exist intact or its output must decode (library Reader in the parent) to it; sink failure: the wrapped output fails from the k-th write (disk full): exit status != 0, no crash, no source lost.",
+            "The real CLI (main, argument parsing included) is built from the working tree with the hooks on and run as a child process on tape-generated trees (1-12 files, empty files, sub-directories) with levels 0-9 or explicit -t/-e, -b, -j, -x/-x64, --rm, -f, dir/file/stdin/stdout/output-dir targets (stdin also to named files that are absent, exist and are forced, or exist and must be refused). Families: fault-free round trip (scheduler on or off, short reads on the input; a third of the scheduled runs with a race-built tool whose reports are violations); safety (existing output without force in both directions; output equal to input directly, through a symlink and, for decompression, through another spelling of the path and a hard link); kill points: the run is first executed fault-free under the in-process seeded scheduler to count its events, then re-executed with the same seed and a self-SIGKILL at event k for every k (runs of <= 120 events) or for k around the application-level points (before/after close and remove, output close) plus random ones - after each kill, every source must still exist intact or its output must decode (library Reader in the parent) to it; sink failure: the wrapped output fails from the k-th write (disk full): exit status != 0, no crash, no source lost.",
             "SIGKILL model (completed system calls survive; kanzi never calls fsync, so a power-loss model has nothing to check). Kills happen at hook points and at every wrapped output call, not between arbitrary instructions; file-system state only changes at system calls, all of which lie between two such points. The trace of every killed run must be a prefix of the fault-free run (checked: determinism).",
             SIM + "real CLI under an in-process scheduler, crash (self-SIGKILL) at enumerated/sampled event indexes, disk-full injection, file-system oracle"),
 }
